@@ -21,7 +21,7 @@ impl Step {
             Step::Stmt(s) => {
                 let q = s.sql();
                 if q.len() > 160 {
-                    format!("{}… [{} chars]", &q[..160], q.len())
+                    format!("{}… [{} chars]", crate::rng::cut(&q, 160), q.len())
                 } else {
                     q
                 }
